@@ -79,11 +79,11 @@ func calleeName(call *ssa.Call) string {
 	}
 	if cal.Pkg != nil {
 		if cal.Signature.Recv() != nil {
-			return cal.Pkg.Pkg.Path() + ".(" + strings.TrimPrefix(types.TypeString(cal.Signature.Recv().Type(), func(*types.Package) string { return "" }), "*") + ")." + cal.Name()
+			return cal.Pkg.Pkg.Path() + ".(" + strings.TrimPrefix(types.TypeString(cal.Signature.Recv().Type(), func(*types.Package) string { return "" }), "*") + ")." + canonName(cal)
 		}
-		return cal.Pkg.Pkg.Path() + "." + cal.Name()
+		return cal.Pkg.Pkg.Path() + "." + canonName(cal)
 	}
-	return cal.Name()
+	return canonName(cal)
 }
 
 // dynCalleeName is calleeName, with an interface method call resolved to the concrete method when the
